@@ -92,6 +92,14 @@ def run(ctx, report):
                    '(random PYTHONHASHSEED).  Distinct = distinct (sequence position, document).')
     baseline = {}
     import pyx12.params
+    # state that leaks from document to document can grow without bound (a shared list extended by itself doubles): cap the address
+    # space so that such a leak ends in a MemoryError inside the run instead of taking the machine down
+    import resource
+    soft_, hard_ = resource.getrlimit(resource.RLIMIT_AS)
+    try:
+        resource.setrlimit(resource.RLIMIT_AS, (6 * 1024 ** 3, hard_))
+    except Exception:  # noqa
+        pass
     for s in range(n_seq):
         seq = [rng.choice(docs) for _ in range(rng.randint(2, 10))]
         if twice and s % 2 == 0:
@@ -110,7 +118,23 @@ def run(ctx, report):
             key = (name, charset, exclude)
             if key not in baseline:
                 baseline[key] = fresh(text, charset, exclude)
-            got = docrun.run_all(text, charset, reuse_param=reuse, exclude=exclude)
+            import signal
+
+            class _Slow(Exception):
+                pass
+
+            def _alarm(_sig, _frm):
+                raise _Slow()
+            signal.signal(signal.SIGALRM, _alarm)
+            signal.alarm(120)
+            try:
+                got = docrun.run_all(text, charset, reuse_param=reuse, exclude=exclude)
+            except _Slow:
+                got = {'verdict': 'no-result-within-120s'}
+            except MemoryError:
+                got = {'verdict': 'MemoryError'}
+            finally:
+                signal.alarm(0)
             want = baseline[key]
             history.append('%s[%s,%s]' % (name, charset, exclude))
             report.case((s, len(history), name, charset, exclude))
